@@ -50,7 +50,7 @@ NoIter ==
 NoImage(term) ==
   [kind |-> "none", anim |-> FALSE, closed |-> FALSE, tell |-> 0, size |-> "dyn",
    term |-> term, temp |-> FALSE, callerOpen |-> FALSE, handles |-> {}, it |-> NoIter,
-   faulted |-> FALSE]
+   faulted |-> FALSE, peer |-> "none", peerVar |-> ""]
 
 Opened(term, kind, anim, size) ==
   [NoImage(term) EXCEPT !.kind = kind, !.anim = anim, !.size = size,
@@ -66,7 +66,7 @@ CountOwner(H, owner) == Cardinality({h \in H : h.owner = owner})
 Act(op) ==
   [op |-> op, kind |-> "", anim |-> FALSE, outcome |-> "", spec |-> "", rep |-> 0,
    cached |-> FALSE, pos |-> 0, size |-> "", term |-> 0, animated |-> FALSE,
-   fault |-> "none", during |-> ""]
+   fault |-> "none", during |-> "", pvar |-> ""]
 
 Out(s, a, res, frame, rendered, gcMax, exhausted, nframes) ==
   [a |-> a, res |-> res, frame |-> frame, rendered |-> rendered, gcMax |-> gcMax,
@@ -114,7 +114,8 @@ ApOpen(s, a) ==
       FALSE, 0)
   ELSE
     R(s, a,
-      [Opened(s.term, a.kind, a.anim, a.size) EXCEPT !.faulted = s.faulted],
+      [Opened(s.term, a.kind, a.anim, a.size) EXCEPT !.faulted = s.faulted, !.peer = s.peer,
+                                                     !.peerVar = s.peerVar],
       "ok", NoFrame, FALSE, 0, FALSE, 0)
 
 (* ------------------------------ format / str ----------------------------- *)
@@ -289,11 +290,39 @@ ApCloseImage(s, a) ==
 \* an iterator object (even a closed one) keeps the image alive
 EnDropImage(s, a) == s.kind # "none" /\ s.it.ph = "none" /\ a.fault = "none"
 ApDropImage(s, a) ==
-  R(s, a, [NoImage(s.term) EXCEPT !.faulted = s.faulted], "ok", NoFrame, FALSE, 0, FALSE, 0)
+  R(s, a, [NoImage(s.term) EXCEPT !.faulted = s.faulted, !.peer = s.peer, !.peerVar = s.peerVar],
+    "ok", NoFrame, FALSE, 0, FALSE, 0)
+
+(* ----------------------- a second URL image (the peer) ------------------- *)
+(* Alive at the same time as a URL-sourced image, from a URL with the SAME   *)
+(* last path component: the very same URL ("same") or another path with       *)
+(* other content ("other").  Each image has its own private temporary copy:   *)
+(* the peer is a fixed-size image whose format() shows ITS content, whatever  *)
+(* happens to the first image, and vice versa.                                *)
+PeerVariants == {"same", "other"}
+PeerOps == {"peeropen", "peerformat", "peerclose", "peerdrop"}
+PeerSize == "A"
+EnPeer(s, a) ==
+  /\ a.fault = "none"
+  /\ IF a.op = "peeropen" THEN s.kind = "url" /\ s.peer = "none" /\ a.pvar \in PeerVariants
+     ELSE s.peer # "none"
+ApPeer(s, a) ==
+  CASE a.op = "peeropen" ->
+         R(s, a, [s EXCEPT !.peer = "open", !.peerVar = a.pvar], "ok", NoFrame, FALSE, 0, FALSE, 0)
+    [] a.op = "peerformat" ->
+         IF s.peer = "closed" THEN Rejected(s, a, "TermImageError")
+         ELSE R(s, a, s, "ok", Frame(0, DefaultSpec, PeerSize), TRUE, 0, FALSE, 0)
+    [] a.op = "peerclose" ->
+         R(s, a, [s EXCEPT !.peer = "closed"], "ok", NoFrame, FALSE, 0, FALSE, 0)
+    [] a.op = "peerdrop" ->
+         R(s, a, [s EXCEPT !.peer = "none", !.peerVar = ""], "ok", NoFrame, FALSE, 0, FALSE, 0)
+(* number of temporary files: one per OPEN URL image *)
+TempCount(s) == (IF s.temp THEN 1 ELSE 0) + (IF s.peer = "open" THEN 1 ELSE 0)
 
 (* --------------------------------- dispatch ------------------------------ *)
 Ops == {"open", "format", "str", "draw", "iter", "next", "iterseek", "imageseek",
-        "nframes", "setsize", "resize", "closeiter", "dropiter", "closeimage", "dropimage"}
+        "nframes", "setsize", "resize", "closeiter", "dropiter", "closeimage", "dropimage",
+        "peeropen", "peerformat", "peerclose", "peerdrop"}
 
 Enabled(s, a, repeats) ==
   CASE a.op = "open" -> EnOpen(s, a)
@@ -309,6 +338,7 @@ Enabled(s, a, repeats) ==
     [] a.op \in {"closeiter", "dropiter"} -> EnCloseIter(s, a)
     [] a.op = "closeimage" -> EnCloseImage(s, a)
     [] a.op = "dropimage" -> EnDropImage(s, a)
+    [] a.op \in PeerOps -> EnPeer(s, a)
     [] OTHER -> FALSE
 
 Apply(s, a) ==
@@ -325,6 +355,7 @@ Apply(s, a) ==
     [] a.op \in {"closeiter", "dropiter"} -> ApCloseIter(s, a)
     [] a.op = "closeimage" -> ApCloseImage(s, a)
     [] a.op = "dropimage" -> ApDropImage(s, a)
+    [] a.op \in PeerOps -> ApPeer(s, a)
 
 (* ------------------------- properties (state / step) --------------------- *)
 (* P1  no library-owned file is open between calls unless a live iterator    *)
